@@ -1512,7 +1512,6 @@ void mc_jobs(Tier t, std::vector<std::string> &jobs)
 	for (const char *fam : { "c", "x" }) {
 		jobs.push_back(std::string(fam) + ":0");
 		for (int fill = 0; fill < 2; ++fill) for (int tr = 0; tr < 3; ++tr) for (int fl = 0; fl < 4; ++fl) {
-			if (t == Quick && !((tr == 0 && fill == 0) || (fl == 0 && fill == 0) || (fl == 0 && tr == 0))) continue;
 			jobs.push_back(fmt("%s:%d", fam, 1 + fl + 4 * tr + 12 * fill));
 		}
 	}
